@@ -1,5 +1,6 @@
 import Rangers.Proofs.GroupChainCrash
 import Rangers.Proofs.GroupChainMirror
+import Rangers.Proofs.GroupChainSql
 /-!
 Property C19 — the group chain is a gap-free linked list whose height index matches it.
 
@@ -418,5 +419,40 @@ theorem write_fault_counterexample : ¬ FullStatementWriteFault := by
 /-- A fault index beyond the operation's writes changes nothing. -/
 theorem write_fault_beyond (c : Chain) (g : Group) (j : Nat) :
     saveF c g (some (j + 2)) = (save c g, false, some j) := rfl
+
+/-! ## J. Faults of the other store: a failing statement on the sqlite `groupIndex`
+
+`save`/`remove` run their sqlite statement after the LevelDB writes and the memory update and `panic`
+when it fails (`saveS`, `removeS`, `rmToS`; tied by the `sqlfault` ops, which make the real statement
+fail through a trigger on the node's own logs.db). The chain itself is never damaged: -/
+
+/-- A failing insert cuts `AddGroup` after a complete `save`: the chain represents the extended list
+    (only the mirror row is missing; `refreshCache` re-inserts it at the next start-up). -/
+theorem sql_fault_add_keeps_rep {l : List Group} {c : Chain} (r : Rep l c) (g : Group) (f : SqlFault)
+    (hb : l.length + 1 < lenBound) (hid : IdOK g.id) (hok : addCheck c g = .ok) :
+    (addGroupS c g f).1 = .ok ∧ Rep (l ++ [stamped l.length g]) (addGroupS c g f).2.1 := by
+  have h2 := (rep_add r g hb hid hok).2
+  obtain ⟨e1, e2, e3⟩ := saveS_core c g f
+  refine ⟨by simp [addGroupS, hok], ?_⟩
+  have : (addGroupS c g f).2.1 = (saveS c g f).1 := by simp [addGroupS, hok]
+  rw [this]
+  exact h2.congr e1 e2 e3
+
+/-- A failing delete during a fork switch cuts it after a complete removal: whatever group's
+    statement fails, the chain ends representing a non-empty prefix of the old list (and start-up
+    reads that back). The removal loop never tears the chain. -/
+theorem sql_fault_rmto_keeps_rep {l : List Group} {c : Chain} (r : Rep l c) (h : Nat) (f : SqlFault)
+    (gen : List Group) :
+    ∃ n c', 0 < n ∧ n ≤ l.length ∧ Rep (l.take n) (rmToS c h f).1 ∧
+      restart (rmToS c h f).1.disk (rmToS c h f).1.mirror gen = some (.alive c') ∧ Rep (l.take n) c' := by
+  obtain ⟨n, h0, h1, r'⟩ := rep_rmToS r h f
+  obtain ⟨c', e, _, _, _, r''⟩ := rep_restart r' (rmToS c h f).1.mirror gen
+  exact ⟨n, c', h0, h1, r', e, r''⟩
+
+/-- Without a fault for any group on the chain the faulted loop is the ordinary one. -/
+example : (rmToS c2 0 { kind := .del, id := [0xee] }).1 = rmTo c2 0 := by decide
+
+/-- With the fault on the top group the switch is cut after that removal (panic), one group short. -/
+example : (rmToS c2 0 { kind := .del, id := gA.id }).2 = true ∧ (rmToS c2 0 { kind := .del, id := gA.id }).1.count = 1 := by decide
 
 end Rangers.Props.C19
